@@ -134,7 +134,8 @@ func Gen(t *rapid.T) Doc {
 	}), 0, 3).Draw(t, "registry")
 	if rapid.IntRange(0, 14).Draw(t, "raw?") == 0 {
 		d.Raw = rapid.SampledFrom([]string{"", "{", "null", "[]", "{}", "\"x\"", "{\"terraform_source_bundle\":1,\"packages\":null}", "{\"terraform_source_bundle\":1,\"packages\":[null]}",
-			"{\"terraform_source_bundle\":1,\"packages\":{}}", "{\"terraform_source_bundle\":1,\"registry\":[{\"source\":\"ns/name/null\",\"versions\":null}]}",
+			"{\"terraform_source_bundle\":1,\"packages\":{}}", "{\"terraform_source_bundle\":1,\"registry\":[null]}", "{\"terraform_source_bundle\":1,\"registry\":null,\"packages\":[null,null]}",
+			"{\"terraform_source_bundle\":1,\"registry\":[{\"source\":\"ns/name/null\",\"versions\":{\"1.0.0\":{\"source\":null,\"deprecation\":null}}},null]}", "{\"terraform_source_bundle\":1,\"packages\":[{\"source\":null,\"local\":null,\"meta\":null}]}", "{\"terraform_source_bundle\":1,\"registry\":[{\"source\":\"ns/name/null\",\"versions\":null}]}",
 			"{\"terraform_source_bundle\":1,\"registry\":[{\"source\":\"ns/name/null\",\"versions\":{\"1.0.0\":null}}]}", "\xff\xfe", strings.Repeat("[", 100000)}).Draw(t, "raw")
 	}
 	return d
